@@ -192,12 +192,16 @@ def matches_known(entry, sub, clause, case):
 # one shard of one sub-check (runs in a worker process)
 # ---------------------------------------------------------------------------------------------------------
 
+class CaseTimeout(BaseException):
+    """raised by the per-case alarm inside a body (BaseException: library `except Exception` must not swallow it)"""
+
+
 def run_shard(args):
     prop_id, sub_name, shard, n, seed, budget = args[:6]
     nshards_total = args[6] if len(args) > 6 else 1
     t0 = time.time()
     out = {'sub': sub_name, 'shard': shard, 'seed': seed, 'evaluations': 0, 'nt_hashes': [], 'all_hashes': 0,
-           'labels': {}, 'discarded': 0, 'excluded_known': {}, 'budget_skipped': 0, 'samples': [],
+           'labels': {}, 'discarded': 0, 'excluded_known': {}, 'budget_skipped': 0, 'samples': [], 'timeout_cases': [],
            'failure': None, 'harness_error': None, 'wall_s': 0.0}
     try:
         import warnings
@@ -208,6 +212,11 @@ def run_shard(args):
         from hypothesis import given, settings, HealthCheck, Phase
         from hypothesis.errors import UnsatisfiedAssumption
         check_repo_binding()
+        if os.environ.get('VERIF_FAULT'):
+            # diagnosis aid: dump the Python stack of a shard that is still running after VERIF_FAULT seconds
+            import faulthandler
+            fh = open('%s-%s-%s-%d.stack' % (os.environ.get('VERIF_FAULT_PREFIX', '/var/tmp/vt'), prop_id, sub_name, shard), 'w')
+            faulthandler.dump_traceback_later(float(os.environ['VERIF_FAULT']), repeat=True, file=fh)
         cov = None
         if os.environ.get('VERIF_COVERAGE') == '1' and shard == 0:
             try:
@@ -225,12 +234,30 @@ def run_shard(args):
         excluded = collections.Counter()
         state = {'last_fail': None}
 
+        import signal
+        case_limit = float(os.environ.get('VERIF_CASE_LIMIT', '300'))
+
+        def _on_alarm(signum, frame):
+            raise CaseTimeout()
+        signal.signal(signal.SIGALRM, _on_alarm)
+
         def wrapped(case):
             if time.time() - t0 > budget:
                 out['budget_skipped'] += 1
                 return
             try:
-                lab = sub.body(case)
+                signal.setitimer(signal.ITIMER_REAL, case_limit)
+                try:
+                    lab = sub.body(case)
+                finally:
+                    signal.setitimer(signal.ITIMER_REAL, 0)
+            except CaseTimeout:
+                # one case ran longer than the per-case limit: inconclusive (counted with the budget skips, the case
+                # is kept in the evidence), never a verdict
+                out['budget_skipped'] += 1
+                if len(out['timeout_cases']) < 2:
+                    out['timeout_cases'].append(json.loads(canon(case)))
+                return
             except UnsatisfiedAssumption:
                 out['discarded'] += 1
                 raise
